@@ -11,13 +11,35 @@ import (
 )
 
 // datagram kinds a peer can send back
-var c05Kinds = []string{"authentic", "bitflip", "wrong-secret", "other-request", "truncated", "padded", "bad-attr", "random", "empty", "short-valid-hdr", "huge"}
+var c05Kinds = []string{"authentic-max", "authentic-other-id", "authentic", "bitflip", "wrong-secret", "other-request", "truncated", "padded", "bad-attr", "random", "empty", "short-valid-hdr", "huge"}
 
 func mkReply(r *Rng, kind string, req *radius.Packet, wire, sec []byte, marker int) []byte {
 	resp := req.Response(radius.Code(r.Pick(2, 3, 11)))
 	resp.Add(18, []byte(fmt.Sprintf("m%04d", marker))) // Reply-Message: unique marker
 	good, _ := resp.Encode()
 	switch kind {
+	case "authentic-max":
+		// an authentic reply that fills the read buffer exactly (4096 bytes), or all but one byte of it
+		p2 := *resp
+		p2.Attributes = append(radius.Attributes(nil), resp.Attributes...)
+		total, want := len(good), 4096-r.Intn(2)
+		for total+2 <= want {
+			n := want - total - 2
+			if n > 253 {
+				n = 253
+			}
+			p2.Add(18, r.Bytes(n))
+			total += n + 2
+		}
+		b, _ := p2.Encode()
+		return b
+	case "authentic-other-id":
+		// valid response authenticator for the request sent, but another identifier octet: the statement makes the
+		// authenticator the criterion
+		p2 := *resp
+		p2.Identifier ^= byte(1 + r.Intn(255))
+		b, _ := p2.Encode()
+		return b
 	case "authentic":
 		return good
 	case "bitflip":
@@ -151,7 +173,7 @@ func runExchange(c *Ctx, r *Rng, cs c05Case, idx int) {
 
 func init() {
 	props["C05"] = func(c *Ctx) {
-		c.Res.Rule = "real Client.Exchange over loopback UDP against a scripted peer that answers the first request with a history of datagrams (kinds: authentic, bitflip, wrong-secret, answer-to-another-request, truncated, padded beyond Length, malformed attribute, random bytes, empty, header-only, longer than the read buffer) followed by an authentic sentinel; histories 0..8 long x MaxPacketErrors in {-1,0,1,2,3,9} x InsecureSkipVerify x request code {1,4,12,40,43}; thorough adds every history of length <= 3 over the kinds. Outcome (returned packet / error class) compared with the loop model and the verdict specification. non-trivial = history containing at least one bad datagram"
+		c.Res.Rule = "real Client.Exchange over loopback UDP against a scripted peer that answers the first request with a history of datagrams (kinds: authentic, authentic filling the 4096-byte buffer exactly, authentic with another identifier octet, bitflip, wrong-secret, answer-to-another-request, truncated, padded beyond Length, malformed attribute, random bytes, empty, header-only, longer than the read buffer) followed by an authentic sentinel; histories 0..8 long x MaxPacketErrors in {-1,0,1,2,3,9} x InsecureSkipVerify x request code {1,4,12,40,43}; thorough adds every history of length <= 3 over the kinds. Outcome (returned packet / error class) compared with the loop model and the verdict specification. non-trivial = history containing at least one bad datagram"
 		r := c.Rng.Fork()
 		maxes := []int{-1, 0, 1, 2, 3, 9}
 		codes := []int{1, 4, 12, 40, 43}
